@@ -182,7 +182,7 @@ struct CacheEngine: Engine{
     // bounded liveness: no contention, no spurious failure => one CAS per loop
     if(!tls && (nthreads==1 || policy==POLICY_SEQUENTIAL) && plan["spurious_pct"].as_int(0)==0 && !has_sched){
       for(int t=0;t<nthreads;t++) for(size_t k=0;k<args[t].ops.size();k++)
-        if(args[t].ops[k].cas>2) out.fail("liveness:cas-count","uncontended","operation needed "+std::to_string(args[t].ops[k].cas)+" compare-and-swap attempts without contention");
+        if(args[t].ops[k].cas>8) out.fail("liveness:cas-count","uncontended","operation needed "+std::to_string(args[t].ops[k].cas)+" compare-and-swap attempts without contention (bounded liveness: 2 are needed today, 8 allowed)");
     }
     if(sr.deadlock) out.fail("sched:deadlock","","all threads blocked");
     if(sr.overflow) out.fail("liveness:step-budget","","scheduler step budget exhausted (livelock)");
